@@ -461,3 +461,189 @@ func snapshotIteratorsSkipRemovedKeys(c *core.Ctx) {
 }
 
 var _ = token.ADD
+
+// ---------------------------------------------------------------------------
+// cloneTablesAreWrittenUnderTheCloneLock: Clone snapshots the VM's tables (the
+// maps it ranges over) under one mutex, because a clone is made while the VM
+// runs (spawn, go, callbacks from module goroutines, and hosts that call Clone
+// from another goroutine).  Every write of such a table in a VM that is in use
+// (an entry, a delete, or a new map stored into the field) therefore holds
+// that mutex, unconditionally: a lock that is only taken under some condition
+// is not held as far as the clone is concerned.
+func cloneTablesAreWrittenUnderTheCloneLock(c *core.Ctx) {
+	p := c.P
+	vmT := vmType(p)
+	st := vmT.Underlying().(*types.Struct)
+	var clone *ssa.Function
+	for _, fn := range repoFns(p, "vm") {
+		if fn.Name() == "Clone" && fn.Signature.Recv() != nil && core.NamedOf(fn.Signature.Recv().Type()) == vmT && fn.Parent() == nil {
+			clone = fn
+		}
+	}
+	if clone == nil {
+		core.Undecidedf("VirtualMachine.Clone not found")
+	}
+	held := core.HeldLocks(clone)
+	tables := map[int]string{}
+	for _, b := range clone.Blocks {
+		for _, in := range b.Instrs {
+			rg, ok := in.(*ssa.Range)
+			if !ok {
+				continue
+			}
+			if u, ok := rg.X.(*ssa.UnOp); ok {
+				if fa, ok := u.X.(*ssa.FieldAddr); ok && core.NamedOf(fa.X.Type()) == vmT && len(clone.Params) > 0 && fa.X == ssa.Value(clone.Params[0]) {
+					for _, l := range held[in].Names() {
+						tables[fa.Field] = l
+					}
+				}
+			}
+		}
+	}
+	if len(tables) < 2 {
+		core.Undecidedf("Clone ranges over %d tables of the VM under a lock", len(tables))
+	}
+	fns := repoFunctions(p)
+	la := core.AnalyzeLocks(fns, exportedEntry)
+	n := 0
+	for _, fn := range repoFns(p, "vm") {
+		if fn == clone {
+			continue
+		}
+		perField := map[int]int{}
+		for _, b := range fn.Blocks {
+			for _, in := range b.Instrs {
+				field := -1
+				what := ""
+				switch x := in.(type) {
+				case *ssa.MapUpdate:
+					if fa, ok := loadOfField(x.Map, vmT, -2); ok {
+						_ = fa
+					}
+					for fi := range tables {
+						if fa, ok := loadOfField(x.Map, vmT, fi); ok && !isFreshAlloc(fa.X) {
+							field, what = fi, "stores an entry into"
+						}
+					}
+				case *ssa.Call:
+					if bi, ok := x.Call.Value.(*ssa.Builtin); ok && bi.Name() == "delete" && len(x.Call.Args) > 0 {
+						for fi := range tables {
+							if fa, ok := loadOfField(x.Call.Args[0], vmT, fi); ok && !isFreshAlloc(fa.X) {
+								field, what = fi, "deletes from"
+							}
+						}
+					}
+				case *ssa.Store:
+					if fa, ok := x.Addr.(*ssa.FieldAddr); ok && core.NamedOf(fa.X.Type()) == vmT && !isFreshAlloc(fa.X) {
+						if _, isT := tables[fa.Field]; isT {
+							field, what = fa.Field, "replaces"
+						}
+					}
+				}
+				if field < 0 {
+					continue
+				}
+				n++
+				perField[field]++
+				lock := tables[field]
+				ok := la.At(fn, in)[lock]
+				if !ok && fn.Parent() != nil {
+					// an option closure: it runs where the options are applied
+					// (a dynamic call of a value of the option type)
+					ok = optionSitesHold(p, la, fn, lock)
+				}
+				c.Check(ok, core.SSAName(fn)+"|"+st.Field(field).Name()+"|written-under-the-clone-lock|"+sprintf("%d", perField[field]), p.Pos(in.Pos()),
+					core.SSAName(fn)+" "+what+" vm."+st.Field(field).Name()+", which Clone ranges over under "+lock+ife(ok, "; it holds that lock", "; it does not hold that lock on every path: a clone made at that moment (spawn, a callback on another goroutine, a host that clones a running VM) iterates the map while it is written, which is a fatal error in Go"))
+			}
+		}
+	}
+	if n == 0 {
+		core.Undecidedf("nothing writes the tables that Clone snapshots")
+	}
+	c.Stat("clone_table_writes", n)
+}
+
+// optionSitesHold: fn is a closure of a named function type; every dynamic
+// call of a value of that type in its package happens with lock held.
+func optionSitesHold(p *core.Program, la *core.LockAnalysis, fn *ssa.Function, lock string) bool {
+	sites := 0
+	for _, g := range repoFns(p, core.RelPkg(fn.Pkg.Pkg)) {
+		for _, b := range g.Blocks {
+			for _, in := range b.Instrs {
+				call, ok := in.(*ssa.Call)
+				if !ok || call.Call.IsInvoke() || call.Call.StaticCallee() != nil {
+					continue
+				}
+				if _, isBuiltin := call.Call.Value.(*ssa.Builtin); isBuiltin {
+					continue
+				}
+				if !types.Identical(call.Call.Value.Type().Underlying(), fn.Signature) {
+					continue
+				}
+				if _, named := call.Call.Value.Type().(*types.Named); !named {
+					continue
+				}
+				sites++
+				if !la.At(g, in)[lock] {
+					return false
+				}
+			}
+		}
+	}
+	return sites > 0
+}
+
+// ---------------------------------------------------------------------------
+// evaluationsRunUnderTheCallersContext: the context a Run, RunCode or Call
+// evaluates under (the one it hands to initContext) is the context the caller
+// gave it.  A context derived for the duration of the call and cancelled on
+// return ends everything the piece started that is meant to outlive it: a
+// thread spawned by one REPL piece and waited for by the next is halted, and
+// its channel operations fail with "context canceled".
+func evaluationsRunUnderTheCallersContext(c *core.Ctx) {
+	p := c.P
+	n := 0
+	for _, fn := range repoFns(p, "vm") {
+		if fn.Parent() != nil || !hostFacing(p, fn) {
+			continue
+		}
+		var ctxParam ssa.Value
+		for _, prm := range fn.Params {
+			if core.IsNamed(prm.Type(), "context", "Context") {
+				ctxParam = prm
+			}
+		}
+		if ctxParam == nil {
+			continue
+		}
+		for _, b := range fn.Blocks {
+			for _, in := range b.Instrs {
+				call, ok := in.(*ssa.Call)
+				if !ok {
+					continue
+				}
+				cal := call.Call.StaticCallee()
+				if cal == nil || cal.Name() != "initContext" || len(call.Call.Args) < 2 {
+					continue
+				}
+				n++
+				arg := call.Call.Args[1]
+				same := arg == ctxParam
+				if !same {
+					same = true
+					for _, o := range core.Origins(arg) {
+						if o != ctxParam {
+							same = false
+						}
+					}
+				}
+				c.Check(same, core.SSAName(fn)+"|evaluates-under-the-callers-context", p.Pos(call.Pos()),
+					core.SSAName(fn)+" evaluates under "+ife(same, "the context its caller gave it", "a context of its own making: what the evaluation starts for later (a thread that the next REPL piece waits for, a server) is cancelled when this call returns"))
+			}
+		}
+	}
+	if n < 2 {
+		core.Undecidedf("only %d host-facing functions of package vm call initContext", n)
+	}
+	c.Stat("init_context_sites", n)
+}
